@@ -43,6 +43,7 @@ def handle (line : String) : String :=
   | "span" :: rest => handleSpan rest
   | "concat" :: rest => handleConcat rest
   | "procmacro" :: rest => handleProcMacro rest
+  | "desugar" :: rest => handleDesugar rest
   | "makeargs" :: rest => handleMakeArgs rest
   | "builderr" :: rest => handleBuildErr rest
   | "getlines" :: rest => handleGetLines rest
